@@ -190,17 +190,36 @@ def discharge_lib(site, bs):
             return "C12.TUPLEOPT", "on every path that reaches it the element is Some (a failed element makes the accumulator Some, and that path returns Err before any unwrap)"
     # C12.ARRAY: panic on the Err edge of Vec<T>::try_into::<[T; N]>
     if site.kind == "panic" and kind == "array":
-        for x in v.reach:
-            cx = v.callee(x)
-            if cx is not None and cx.fn is not None and (cx.name == "try_into" or (cx.name == "try_from" and cx.self_ty is not None and v.b.crate.types[cx.self_ty]["k"] == "array")):
-                k2, sbb, info, cur = follow_local_use(v, x, v.blocks[x]["term"]["dest"]["l"])
-                if k2 == "switch":
-                    et = v.variant_target(info, "Err")
-                    okt = v.variant_target(info, "Ok")
-                    if et is not None and et != okt and v.dominates(et, bb) and acc_none_edge_dominates(v, bs, x):
-                        fs, ob = coll.c_array(v, bs)
-                        if not fs:
-                            return "C12.ARRAY", "the vector holds exactly N elements here (arity check, one push per element, no element failed)"
+        def array_guard(v_, bs_, bbs):
+            for x in v_.reach:
+                cx = v_.callee(x)
+                if cx is not None and cx.fn is not None and (cx.name == "try_into" or (cx.name == "try_from" and cx.self_ty is not None and v_.b.crate.types[cx.self_ty]["k"] == "array")):
+                    k2, sbb, info, cur = follow_local_use(v_, x, v_.blocks[x]["term"]["dest"]["l"])
+                    if k2 == "switch":
+                        et = v_.variant_target(info, "Err")
+                        okt = v_.variant_target(info, "Ok")
+                        if et is not None and et != okt and all(v_.dominates(et, y) for y in bbs) and acc_none_edge_dominates(v_, bs_, x):
+                            fs, ob = coll.c_array(v_, bs_)
+                            if not fs:
+                                return True
+                            if all(getattr(f, "undecided", False) for f in fs):
+                                und_[0] = True
+            return False
+        und_ = [False]
+        why = "the vector holds exactly N elements here (arity check, one push per element, no element failed)"
+        if array_guard(v, bs, [bb]):
+            return "C12.ARRAY", why
+        # the element loop may live in a helper shared with the other sequence containers: judged with it expanded
+        import inline
+        ib = inline.inlined(b.crate, b)
+        if ib is not b:
+            iv = View(ib)
+            at = t.get("at")
+            cands = [x for x in iv.reach if iv.blocks[x]["term"].get("at") == at and iv.blocks[x]["term"]["k"] == t["k"] and not iv.blocks[x].get("inlined_from")]
+            if cands and array_guard(iv, BodySites(iv), cands):
+                return "C12.ARRAY", why
+        if und_[0]:
+            return "C12.UNDECIDED", "the panic sits on the Err edge of the checked conversion, with no element failed; how the vector was filled was not recognised"
     # C12.ITERCOUNT: `i += 1` of a hand-written iteration counter over the payload's own iterator (same bound as Iterator::enumerate)
     if site.kind == "assert" and "Overflow(Add" in t["msg"]:
         import loc as _loc
@@ -394,6 +413,8 @@ def run(ctx):
                 if d is None:
                     res.findings.append(Finding("C12.SITE", b.path, "%s is not covered by any guard rule" % s.desc,
                                                 v.blocks[s.bb]["term"].get("at", "")))
+                elif d[0] == "C12.UNDECIDED":
+                    res.findings.append(Finding("C12.SITE", b.path, "%s: %s (undecided)" % (s.desc, d[1]), v.blocks[s.bb]["term"].get("at", ""), undecided=True))
                 else:
                     by_rule[d[0]] = by_rule.get(d[0], 0) + 1
                     if len(res.samples) < 10 and d[0] not in [x["rule"] for x in res.samples]:
